@@ -72,8 +72,8 @@ def signature(vclass, detail):
         a = detail.get("a_ref", {})
         comp_a = tc.split("/")[0]
         comp_b = detail.get("toolchain_b", "").split("/")[0]
-        if comp_a == comp_b:  # same compiler: the language standard is what differs
-            comp_a, comp_b = tc.split("/")[-1], detail.get("toolchain_b", "").split("/")[-1]
+        if comp_a == comp_b:  # same compiler: the language standard (or optimisation level) is what differs
+            comp_a, comp_b = "/".join(tc.split("/")[1:]), "/".join(detail.get("toolchain_b", "").split("/")[1:])
         strip = lambda t: re.sub(r"^[\w.+-]+\.(?:hh|cc):", "", _norm_diag(t))
         if not b.get("ok", True):
             return "%s|accepts=%s|rejects=%s|%s" % (vclass, comp_a, comp_b, strip(b.get("diag", "")))
